@@ -31,6 +31,14 @@ def gen_ops(rng, model):
             else: ovr.append(['remove', s, e['key'], rng.randint(0, 4)])
         else:   # invalid: key that does not exist
             ovr.append(['override', ('Pair',), ('pair', 'Qq', 'Qq'), 0, 'as.constant 1.0'] if rng.random() < 0.5 else ['remove', ('Tabulation',), ('opt', 'nosuch'), 0])
+    # two items with the same key in different sections edited on one command line (a species in [EAM-Embed] and [EAM-Density],
+    # x / y of two table forms): both edits must take effect
+    bykey = {}
+    for s, e in items: bykey.setdefault(tuple(e['key']) if not isinstance(e['key'][-1], list) else (e['key'][0], e['key'][1], tuple(e['key'][2])), []).append((s, e))
+    shared = [v for v in bykey.values() if len({sc.sect_name(s) for s, _ in v}) > 1]
+    if shared and rng.random() < 0.5:
+        for s, e in rng.choice(shared)[:2]:
+            ovr.append(['override', s, e['key'], rng.randint(0, 4), replacement_value(rng, s, e)] if rng.random() < 0.75 else ['remove', s, e['key'], rng.randint(0, 4)])
     # remove an item and add it back with another value; the same addition given twice
     if items and rng.random() < 0.2:
         s, e = rng.choice(items)
@@ -200,10 +208,21 @@ def oracle(case):
     b = sc.classify(lambda: sc.tabulate(sc.render(edited)))
     if a[0] != b[0] or (a[0] == 'Ok' and a[1] != b[1]):
         fails.append('tabulating with the operations gives %s, tabulating the hand-edited file gives %s' % (a[0] if a[0] != 'Ok' else 'a table', b[0] if b[0] != 'Ok' else 'a different table' if a[0] == 'Ok' else 'a table'))
+    if case['route'] == 'cli' and b[0] == 'Ok':
+        # the table potable writes with the operations on its command line is the table of the hand-edited file
+        rc, out_, err_, content = sc.potable(cli_args(case), text)
+        if rc != 0 or content is None: fails.append('potable with the operations failed (%s) although the hand-edited file tabulates' % err_.strip().split('\n')[-1][:120])
+        elif content != b[1]: fails.append('potable with the operations on the command line writes a different table than the hand-edited file')
     if case['route'] == 'cli':
         want = sorted('%s:%s=%s' % (sc.sect_name(s) if s[0] == 'Table-Form' else sc.sect_name(s), sc.norm(sc.key_text(tuple_key(e['key']))), e['val']) for (s, es) in edited['sections'] for e in es)
         got = sorted(l for l in ist.split('\n') if l)
         if len(got) != len(want): fails.append('--list-items prints %d items, the edited file has %d' % (len(got), len(want)))
+        else:
+            canon = lambda l: (sc.norm(l.split('=', 1)[0]), l.split('=', 1)[1].strip()) if '=' in l else (l, '')
+            gs, ws = sorted(map(canon, got)), sorted(map(canon, want))
+            if gs != ws:
+                d = [(g, w) for g, w in zip(gs, ws) if g != w][0]
+                fails.append('--list-items after the operations shows %s=%s, the hand-edited file has %s=%s' % (d[0][0], d[0][1], d[1][0], d[1][1]))
     return fails
 
 def search_cases(rng, n):
